@@ -52,6 +52,9 @@ class HtmlRenderer(BaseRenderer):
         if token.children is not None:
             inner = [self.render_to_plain(child) for child in token.children]
             return ''.join(inner)
+        if isinstance(token, span_token.LineBreak):
+            # a line break separates words; its source spelling (spaces, backslash) is not text
+            return ' '
         return html.escape(token.content)
 
     def render_strong(self, token: span_token.Strong) -> str:
